@@ -115,6 +115,8 @@ func init() {
 		Explanation: "E5 append typestate.",
 		Run: func(p *Program, c *Check) {
 			p.ruleAppendTypestate(c)
+			p.ruleJSONGrammar(c)
+			p.ruleMembersNonEmpty(c)
 			p.rulePositionIndex(c)
 			p.ruleThreeViews(c)
 			p.ruleFloatFormat(c)
@@ -161,6 +163,20 @@ func init() {
 			p.ruleCollectionFold(c)
 			p.ruleCollectionSearch(c)
 			p.ruleFolds(c)
+		},
+	})
+	register(&PropertyDef{
+		ID: "C12", Level: "other",
+		Explanation: "Move.",
+		Run: func(p *Program, c *Check) {
+			p.ruleMove(c)
+		},
+	})
+	register(&PropertyDef{
+		ID: "C14", Level: "other",
+		Explanation: "clamp.",
+		Run: func(p *Program, c *Check) {
+			p.ruleClamp(c)
 		},
 	})
 }
